@@ -249,14 +249,14 @@ theorem renderTok_head_notWhite (cfg : LexCfg) (h : CfgOK cfg) (t : CTok) (href 
     (hok : tokOK cfg t = true) : (renderTok cfg t).takeWhile cfg.cc.white = [] := by
   cases t with
   | ref sh r =>
-    simp only [tokOK, Bool.and_eq_true] at hok
+    simp only [tokOK, h.a1, if_true, Bool.and_eq_true] at hok
     rw [renderTok_ref cfg h sh r hok.2]
     exact prefix_head_notWhite cfg h sh hok.1 _ (bodyChar_of_ref _ (cellText_refChar _ _ _ _))
       (cellText_ne_nil _ _ _ _)
   | range sh l r =>
-    simp only [tokOK, Bool.and_eq_true] at hok
-    rw [renderTok_range cfg h sh l r hok.1.2 hok.2]
-    exact prefix_head_notWhite cfg h sh hok.1.1 _ (rangeBody_bodyChar l r) (rangeBody_ne_nil l r)
+    simp only [tokOK, h.a1, if_true, Bool.and_eq_true] at hok
+    rw [renderTok_range cfg h sh l r hok.2.1 hok.2.2]
+    exact prefix_head_notWhite cfg h sh hok.1 _ (rangeBody_bodyChar l r) (rangeBody_ne_nil l r)
   | _ => simp [isRefTok] at href
 
 end IronCalc.F4
